@@ -105,6 +105,12 @@ pub fn check(v: &View, vd: &mut Verdict) {
                 }
             }
         }
+        // carrying on means the same value, not a restarted or recreated one (nobody asked for a restart)
+        let starts = v.cbs.iter().filter(|c| c.actor == a && c.cb == Cb::Started).count();
+        let restart_requested = v.client_ops().any(|o| o.actor == Some(a) && o.what == OpWhat::Restart);
+        if starts > 1 && !restart_requested {
+            vd.fail("C11/state_reset_after_timeout", format!("actor {a}: started() ran {starts} times although nobody requested a restart (a handler timeout must leave the actor's state intact)"));
+        }
         if cfg.is_some() {
             vd.class("timeout_configured");
         } else {
